@@ -136,6 +136,7 @@ func VerifC05Atomic(h *verifh.H) {
 	twoWriters := h.Choice("twoWriters", 2) == 1
 	ds := hs.dss["d"]
 	var seen []string
+	h.SymbolicTxns() // every Badger transaction start of /repo code is a scheduling point too
 	h.SymbolicSched(h.Param("preemptions", 2))
 	h.Go(func() { _ = ds.StoreEntities(ents(b1)) })
 	if twoWriters {
@@ -282,6 +283,7 @@ func VerifC05CreateRace(h *verifh.H) {
 	var cerr, werr [2]error
 	ids := []string{"ns0:e1", "ns0:e2"}
 	h.SymbolicLocks()
+	h.SymbolicTxns() // every Badger transaction start of /repo code is a scheduling point too
 	h.SymbolicSched(h.Param("preemptions", 2))
 	for k := 0; k < 2; k++ {
 		k := k
@@ -318,4 +320,59 @@ func VerifC05CreateRace(h *verifh.H) {
 		h.Assert(err == nil && e != nil && len(e.Properties) == 1, "an acknowledged entity is found by a lookup scoped to the dataset :: "+ids[k])
 	}
 	h.Observe("n", len(res.Entities))
+}
+
+// VerifC05LargePage: a single listing page or feed page is one snapshot however
+// many entities it holds. The dataset holds N entities (one batch); a reader
+// asks for everything in one page while a writer commits one batch that
+// rewrites the first and the last entity of the page. Every transaction start
+// and lock acquisition of /repo code is a scheduling point, so a page stitched
+// from several read transactions can be cut between them. The page shows both
+// rewritten entities old or both new, never one of each.
+func VerifC05LargePage(h *verifh.H) {
+	hub := VerifNewHub(h)
+	ds, err := hub.Dsm.CreateDataset("d", nil)
+	h.Assert(err == nil, "create")
+	n := h.Param("n", 40)
+	var batch []*Entity
+	for i := 0; i < n; i++ {
+		e := NewEntity("ns0:b"+itoa(i), 0)
+		e.Properties["ns0:v"] = "x"
+		batch = append(batch, e)
+	}
+	h.Assert(ds.StoreEntities(batch) == nil, "first batch")
+	first := NewEntity("ns0:b0", 0)
+	first.Properties["ns0:v"] = "y"
+	last := NewEntity("ns0:b"+itoa(n-1), 0)
+	last.Properties["ns0:v"] = "y"
+	val := func(es []*Entity, id string) string {
+		out := ""
+		for _, e := range es {
+			if e.ID == id {
+				out, _ = e.Properties["ns0:v"].(string) // the newest occurrence wins (feed order)
+			}
+		}
+		return out
+	}
+	var listFirst, listLast, feedFirst, feedLast string
+	var listN, feedN int
+	h.SymbolicSched(h.Param("preemptions", 2))
+	h.SymbolicTxns()
+	h.Go(func() { _ = ds.StoreEntities([]*Entity{first, last}) })
+	h.Go(func() {
+		if res, err := ds.GetEntities("", -1); err == nil {
+			listN = len(res.Entities)
+			listFirst, listLast = val(res.Entities, first.ID), val(res.Entities, last.ID)
+		}
+		if ch, err := ds.GetChanges(0, 0, false); err == nil {
+			feedN = len(ch.Entities)
+			feedFirst, feedLast = val(ch.Entities, first.ID), val(ch.Entities, last.ID)
+		}
+	})
+	h.Assert(h.Wait(), "clients complete")
+	h.Assert(listN == n, "the listing page holds every entity exactly once :: n="+itoa(listN))
+	h.Assert(listFirst == listLast, "a listing page shows a concurrent batch entirely or not at all :: first="+listFirst+" last="+listLast)
+	h.Assert(feedN == n || feedN == n+2, "a feed page shows a concurrent batch entirely or not at all :: entries="+itoa(feedN))
+	h.Assert(feedFirst == feedLast, "a feed page shows both rewritten entities in the same state :: first="+feedFirst+" last="+feedLast)
+	h.Observe("n", listN)
 }
